@@ -700,6 +700,14 @@ class Normaliser:
         for path, mod in self.modules.items():
             for q, f, cls in func_quals(mod.tree):
                 defs.setdefault(f.name, []).append((path, q, f, cls))
+        self.local_helpers = {}     # (path, name) -> Helper: private module-level functions of the same name in several modules
+        for name, lst in defs.items():
+            if len(lst) > 1 and all(c_ is None for _, _, _, c_ in lst) and len({p_ for p_, _, _, _ in lst}) == len(lst):
+                for path, q, f, cls in lst:
+                    bm = self.base.get(path)
+                    if (bm is None or q not in bm['funcs']) and self._inlinable_def(f, None) and not any(
+                            isinstance(al, ast.alias) and al.name == name for m_ in self.modules.values() for n_ in ast.walk(m_.tree) if isinstance(n_, ast.ImportFrom) for al in n_.names):
+                        self.local_helpers[(path, name)] = Helper(path, None, f, q, 'function')
         for name, lst in defs.items():
             if len(lst) != 1:
                 continue
@@ -908,7 +916,7 @@ class Normaliser:
         if getattr(func, '_kv_norm', False) or key in self.inprogress:
             return
         # fast exit: nothing in this function refers to a new helper and it defines no nested function
-        hs = self.helpers
+        hs = set(self.helpers) | {n_ for (p_, n_) in self.local_helpers if p_ == path}
         touched = False
         for n in ast.walk(func):
             if isinstance(n, ast.Attribute) and n.attr in hs:
@@ -1025,7 +1033,7 @@ class Normaliser:
         if isinstance(f, ast.Name):
             if f.id in fctx['closures']:
                 return Helper(fctx['path'], None, fctx['closures'][f.id], f.id, 'closure'), None
-            h = self.helpers.get(f.id)
+            h = self.helpers.get(f.id) or self.local_helpers.get((fctx['path'], f.id))
             if h and h.kind == 'function' and h.func is not fctx['func']:
                 self._prepare(h)
                 return h, None
@@ -1497,7 +1505,7 @@ class Normaliser:
 
     # ---------------------------------------------------------------- N5 unused helpers
     def _drop_unused(self):
-        if not self.helpers:
+        if not self.helpers and not getattr(self, 'local_helpers', None):
             return
         refs: dict[str, int] = {}
         for mod in self.modules.values():
@@ -1510,6 +1518,11 @@ class Normaliser:
                     refs[n.value] = refs.get(n.value, 0) + 1
                 elif isinstance(n, ast.alias) and n.name in self.helpers:
                     refs[n.name] = refs.get(n.name, 0) + 1
+        for (lp, lname), h in self.local_helpers.items():
+            tree = self.modules[lp].tree
+            used = any((isinstance(n, ast.Name) and n.id == lname) or (isinstance(n, ast.Attribute) and n.attr == lname) for n in ast.walk(tree) if n is not h.func)
+            if not used and lname.startswith('_') and self._remove_stmt(tree, h.func):
+                self.log.append(f'N5 {lp}: new helper {h.qual} has no remaining reference, dropped')
         for name, h in self.helpers.items():
             # only private helpers are dropped: a new public function is part of the interface even if nothing in the package calls it
             if refs.get(name, 0) == 0 and name.startswith('_'):
